@@ -27,6 +27,8 @@ var c13Sigma = func() []string {
 	s = append(s, "!deliver", "!extdel 1", "!extdel 2")
 	// the client hangs up in the middle of a multi-line response (after its status line)
 	s = append(s, "RETR 2 !hangup", "LIST !hangup")
+	// a login whose spelling differs from the mailbox name it maps to (upper case, +tag, domain)
+	s = append(s, "USER U+tag@x.test")
 	return s
 }()
 
@@ -292,7 +294,7 @@ func c13Exec(c *fw.Ctx, be string, nmsgs int, seq []int, checkAll bool) (key str
 							break outer
 						}
 						inTxn = true
-						snap = append([]*model.Msg{}, mo.Boxes[user]...)
+						snap = append([]*model.Msg{}, mo.Boxes[model.SimpleMailbox("local", user)]...)
 						marked = make([]bool, len(snap))
 						if last {
 							nontrivial = true
@@ -523,7 +525,8 @@ func c13Run(c *fw.Ctx) {
 	}
 }
 
-var c13Prelude = []int{0, 2} // "USER u", "PASS p"
+// the logged-in search logs in with the non-canonical spelling
+var c13Prelude = []int{len(c13Sigma) - 1, 2} // "USER U+tag@x.test", "PASS p"
 
 func c13Explore(c *fw.Ctx, be string, nm int, loggedIn bool) {
 	// alphabet of this tier: positions → indices into c13Sigma
